@@ -1,7 +1,7 @@
 (* GENERATED on every check run by harness/gen_kernels.py from pyUSID/processing/process.py, comp_utils.py -- do not edit *)
 
 From Coq Require Import ZArith QArith Qround Qabs Qminmax Bool.
-Inductive exn := TypeError | ValueError.
+Inductive exn := TypeError | ValueError | ZeroDivisionError.
 Inductive res (A : Type) := Ok (a : A) | Err (e : exn).
 Arguments Ok {A} a.
 Arguments Err {A} e.
@@ -15,7 +15,7 @@ Definition set_cores (ncpu : Z) (cores_none cores_is_int : bool) (cores : Z) : r
 (* Process.__set_memory over exact rationals (a Python float is a dyadic rational) *)
 Definition set_memory (avail ncores nranks itemsize ncols : Z) (mult_is_float : bool) (mult : Q)
     (limit_none limit_is_int : bool) (limit_mb : Z) : res Z :=
-  if (andb true (negb mult_is_float)) then Err TypeError else (if (andb true (negb (Qle_bool (inject_Z (1)) (Qabs mult)))) then Err ValueError else (if (andb (andb true (negb limit_none)) (negb limit_is_int)) then Err TypeError else (Ok (Qtrunc (inject_Z (Qfloor (Qdiv (Qdiv (inject_Z (Z.min avail (if limit_none then avail else ((Z.abs limit_mb) * ((1024) ^ (2)))))) (inject_Z (ncores * nranks))) (Qmult (inject_Z (itemsize * ncols)) (Qabs mult))))))))).
+  if (andb true (negb mult_is_float)) then Err TypeError else (if (andb true (negb (Qle_bool (inject_Z (1)) (Qabs mult)))) then Err ValueError else (if (andb (andb true (negb limit_none)) (negb limit_is_int)) then Err TypeError else (if (andb true ((ncores * nranks) =? 0)) then Err ZeroDivisionError else (if (andb true (Qeq_bool (Qmult (inject_Z (itemsize * ncols)) (Qabs mult)) 0)) then Err ZeroDivisionError else (Ok (Qtrunc (inject_Z (Qfloor (Qdiv (Qdiv (inject_Z (Z.min avail (if limit_none then avail else ((Z.abs limit_mb) * ((1024) ^ (2)))))) (inject_Z (ncores * nranks))) (Qmult (inject_Z (itemsize * ncols)) (Qabs mult))))))))))).
 
 Definition granted_mem (avail : Z) (limit_none : bool) (limit_mb : Z) : Z :=
   (Z.min avail (if limit_none then avail else ((Z.abs limit_mb) * ((1024) ^ (2))))).
@@ -23,4 +23,4 @@ Definition granted_mem (avail : Z) (limit_none : bool) (limit_mb : Z) : Z :=
 (* comp_utils.recommend_cpu_cores *)
 Definition recommend_cpu_cores (ncpu num_jobs : Z) (jobs_is_int : bool) (req_none req_is_int : bool) (req : Z)
     (minfree_none : bool) (minfree : Z) (lengthy : bool) : res Z :=
-  if (andb (andb true (negb minfree_none)) (negb true)) then Err TypeError else (if (andb (andb true (negb minfree_none)) (orb (minfree <? (0)) (ncpu <=? minfree))) then Err ValueError else (if (andb (andb true (negb req_none)) (negb req_is_int)) then Err TypeError else (if (andb true (negb jobs_is_int)) then Err TypeError else (if (andb true (num_jobs <? (1))) then Err ValueError else (Ok (if (negb lengthy) then (if (andb ((1) <? (if req_none then (Z.max (1) (ncpu - (if (negb minfree_none) then minfree else (if ((4) <? ncpu) then (2) else (if (ncpu =? (1)) then (0) else (1)))))) else (if (orb (req <? (0)) (ncpu <? req)) then (Z.max (Z.min (Z.abs req) ncpu) (1)) else req))) ((Z.max (Qtrunc (Qdiv (inject_Z num_jobs) (inject_Z (if req_none then (Z.max (1) (ncpu - (if (negb minfree_none) then minfree else (if ((4) <? ncpu) then (2) else (if (ncpu =? (1)) then (0) else (1)))))) else (if (orb (req <? (0)) (ncpu <? req)) then (Z.max (Z.min (Z.abs req) ncpu) (1)) else req))))) (1)) <? (20))) then (Z.max (1) (Z.min (if req_none then (Z.max (1) (ncpu - (if (negb minfree_none) then minfree else (if ((4) <? ncpu) then (2) else (if (ncpu =? (1)) then (0) else (1)))))) else (if (orb (req <? (0)) (ncpu <? req)) then (Z.max (Z.min (Z.abs req) ncpu) (1)) else req)) (Qtrunc (Qdiv (inject_Z num_jobs) (inject_Z ((2) * (20))))))) else (if req_none then (Z.max (1) (ncpu - (if (negb minfree_none) then minfree else (if ((4) <? ncpu) then (2) else (if (ncpu =? (1)) then (0) else (1)))))) else (if (orb (req <? (0)) (ncpu <? req)) then (Z.max (Z.min (Z.abs req) ncpu) (1)) else req))) else (if req_none then (Z.max (1) (ncpu - (if (negb minfree_none) then minfree else (if ((4) <? ncpu) then (2) else (if (ncpu =? (1)) then (0) else (1)))))) else (if (orb (req <? (0)) (ncpu <? req)) then (Z.max (Z.min (Z.abs req) ncpu) (1)) else req)))))))).
+  if (andb (andb true (negb minfree_none)) (negb true)) then Err TypeError else (if (andb (andb true (negb minfree_none)) (orb (minfree <? (0)) (ncpu <=? minfree))) then Err ValueError else (if (andb (andb true (negb req_none)) (negb req_is_int)) then Err TypeError else (if (andb true (negb jobs_is_int)) then Err TypeError else (if (andb true (num_jobs <? (1))) then Err ValueError else (if (andb true ((if req_none then (Z.max (1) (ncpu - (if (negb minfree_none) then minfree else (if ((4) <? ncpu) then (2) else (if (ncpu =? (1)) then (0) else (1)))))) else (if (orb (req <? (0)) (ncpu <? req)) then (Z.max (Z.min (Z.abs req) ncpu) (1)) else req)) =? 0)) then Err ZeroDivisionError else (if (andb (andb (andb true (negb lengthy)) (andb ((1) <? (if req_none then (Z.max (1) (ncpu - (if (negb minfree_none) then minfree else (if ((4) <? ncpu) then (2) else (if (ncpu =? (1)) then (0) else (1)))))) else (if (orb (req <? (0)) (ncpu <? req)) then (Z.max (Z.min (Z.abs req) ncpu) (1)) else req))) ((Z.max (Qtrunc (Qdiv (inject_Z num_jobs) (inject_Z (if req_none then (Z.max (1) (ncpu - (if (negb minfree_none) then minfree else (if ((4) <? ncpu) then (2) else (if (ncpu =? (1)) then (0) else (1)))))) else (if (orb (req <? (0)) (ncpu <? req)) then (Z.max (Z.min (Z.abs req) ncpu) (1)) else req))))) (1)) <? (20)))) (((2) * (20)) =? 0)) then Err ZeroDivisionError else (Ok (if (negb lengthy) then (if (andb ((1) <? (if req_none then (Z.max (1) (ncpu - (if (negb minfree_none) then minfree else (if ((4) <? ncpu) then (2) else (if (ncpu =? (1)) then (0) else (1)))))) else (if (orb (req <? (0)) (ncpu <? req)) then (Z.max (Z.min (Z.abs req) ncpu) (1)) else req))) ((Z.max (Qtrunc (Qdiv (inject_Z num_jobs) (inject_Z (if req_none then (Z.max (1) (ncpu - (if (negb minfree_none) then minfree else (if ((4) <? ncpu) then (2) else (if (ncpu =? (1)) then (0) else (1)))))) else (if (orb (req <? (0)) (ncpu <? req)) then (Z.max (Z.min (Z.abs req) ncpu) (1)) else req))))) (1)) <? (20))) then (Z.max (1) (Z.min (if req_none then (Z.max (1) (ncpu - (if (negb minfree_none) then minfree else (if ((4) <? ncpu) then (2) else (if (ncpu =? (1)) then (0) else (1)))))) else (if (orb (req <? (0)) (ncpu <? req)) then (Z.max (Z.min (Z.abs req) ncpu) (1)) else req)) (Qtrunc (Qdiv (inject_Z num_jobs) (inject_Z ((2) * (20))))))) else (if req_none then (Z.max (1) (ncpu - (if (negb minfree_none) then minfree else (if ((4) <? ncpu) then (2) else (if (ncpu =? (1)) then (0) else (1)))))) else (if (orb (req <? (0)) (ncpu <? req)) then (Z.max (Z.min (Z.abs req) ncpu) (1)) else req))) else (if req_none then (Z.max (1) (ncpu - (if (negb minfree_none) then minfree else (if ((4) <? ncpu) then (2) else (if (ncpu =? (1)) then (0) else (1)))))) else (if (orb (req <? (0)) (ncpu <? req)) then (Z.max (Z.min (Z.abs req) ncpu) (1)) else req)))))))))).
